@@ -37,6 +37,8 @@ pub enum CallKind {
     Call,
     Static,
     Delegate,
+    /// CALLCODE: the callee's code runs in the caller's state context, value stays with the caller
+    CallCode,
 }
 
 #[derive(Clone, Debug, PartialEq)]
@@ -217,6 +219,11 @@ impl Asm {
                 self.expr(to);
                 self.push_u64(gas).op(0xf1);
             }
+            CallKind::CallCode => {
+                self.expr(value);
+                self.expr(to);
+                self.push_u64(gas).op(0xf2);
+            }
             CallKind::Static => {
                 self.expr(to);
                 self.push_u64(gas).op(0xfa);
@@ -380,7 +387,7 @@ pub fn stmt_min_spec(s: &Stmt) -> SpecId {
         Stmt::Sstore(a, b) => expr_min_spec(a).max(expr_min_spec(b)),
         Stmt::Call { kind, to, value, arg0, arg1, .. } => {
             let k = match kind {
-                CallKind::Call => SpecId::FRONTIER,
+                CallKind::Call | CallKind::CallCode => SpecId::FRONTIER,
                 CallKind::Delegate => SpecId::HOMESTEAD,
                 CallKind::Static => SpecId::BYZANTIUM,
             };
@@ -388,7 +395,7 @@ pub fn stmt_min_spec(s: &Stmt) -> SpecId {
         }
         Stmt::CallRaw { kind, to, value, .. } => {
             let k = match kind {
-                CallKind::Call => SpecId::FRONTIER,
+                CallKind::Call | CallKind::CallCode => SpecId::FRONTIER,
                 CallKind::Delegate => SpecId::HOMESTEAD,
                 CallKind::Static => SpecId::BYZANTIUM,
             };
